@@ -201,9 +201,13 @@ JudgeUnd(e, o) ==
 ExtTypeOf(b) == LET c == LowerB(b) IN
     IF c = 117 THEN "u" ELSE IF c = 116 THEN "t" ELSE IF c = 120 THEN "x"
     ELSE IF IsAlnum(b) THEN "other" ELSE "err"
+(* only totality is demanded of this helper by the listed properties (C01);  *)
+(* its classification of a byte is specified here but a difference is not a  *)
+(* violation of any of them                                                  *)
 JudgeExtType(e, o) ==
-    IF e.out = ExtTypeOf(e.b) /\ (e.out = "other" => e.ch = LowerB(e.b)) THEN Good(o)
-    ELSE Bad("extension-type-of-byte", <<IF e.out = "panic" THEN "C01" ELSE "C03">>, o)
+    IF e.out = "panic" THEN Bad("extension-type-of-byte-panics", <<"C01">>, o)
+    ELSE IF e.out = ExtTypeOf(e.b) /\ (e.out = "other" => e.ch = LowerB(e.b)) THEN Good(o)
+    ELSE Bad("extension-type-of-byte-differs-from-spec", <<"INFO">>, o)
 
 Judge(e, o) ==
     CASE e.op = "li_parse"  -> JudgeLiParse(e, o)
